@@ -8,8 +8,12 @@ package c09
 // operators of the two validators the history creates; validator index 2 is
 // the test app's genesis validator (bonded from the start, its delegator has
 // no claim, so the total exceeds the sum of the users' shares).
-// Not driven: slashing, jailing and validators leaving the bonded set (these
-// synchronise several delegators in one operation).
+// Also driven: slashing (Slash at the current height), jailing / unjailing, an
+// operator undelegating below his minimum self-delegation, and (MaxValidators = 2
+// in half of the histories) validators entering and leaving the bonded set in the
+// end blocker -- each of these synchronises every delegator of the validator in
+// one operation; a third party's delegation to a slashed validator moves the
+// other delegators' tokens by rounding without a hook (Revalue in the model).
 
 import (
 	. "kavaverif/lib"
@@ -138,6 +142,42 @@ func (w *world) execDeleg(o op) (Class, error) {
 			_, err := srv.Undelegate(sdk.WrapSDKContext(ctx), stakingtypes.NewMsgUndelegate(w.addrs[o.U], w.valAddr(o.P), coin))
 			return err
 		})
+	case "val-slash", "val-jail", "val-unjail":
+		return Atomically(w.ctx, func(ctx sdk.Context) error {
+			val, ok := stk.GetValidator(ctx, w.valAddr(o.P))
+			if !ok {
+				return fmt.Errorf("no such validator")
+			}
+			cons, err := val.GetConsAddr()
+			if err != nil {
+				return err
+			}
+			switch o.Kind {
+			case "val-slash": // an infraction at the current height: only the validator's tokens are slashed
+				if val.IsUnbonded() {
+					return fmt.Errorf("validator is unbonded")
+				}
+				stk.Slash(ctx, cons, ctx.BlockHeight(), val.ConsensusPower(stk.PowerReduction(ctx)), sdk.MustNewDecFromStr(o.A))
+			case "val-jail":
+				if val.IsJailed() {
+					return fmt.Errorf("validator already jailed")
+				}
+				stk.Jail(ctx, cons)
+			default: // as through x/slashing MsgUnjail: its checks on the staking side, then staking Unjail
+				self, found := stk.GetDelegation(ctx, sdk.AccAddress(val.GetOperator()), val.GetOperator())
+				if !found {
+					return fmt.Errorf("validator has no self-delegation; cannot be unjailed")
+				}
+				if val.TokensFromShares(self.GetShares()).TruncateInt().LT(val.MinSelfDelegation) {
+					return fmt.Errorf("validator's self delegation less than minimum; cannot be unjailed")
+				}
+				if !val.IsJailed() {
+					return fmt.Errorf("validator not jailed; cannot be unjailed")
+				}
+				stk.Unjail(ctx, cons)
+			}
+			return nil
+		})
 	default: // redelegate from validator P to validator D
 		return Atomically(w.ctx, func(ctx sdk.Context) error {
 			if !coin.Amount.IsPositive() {
@@ -176,14 +216,14 @@ func (w *world) genOpDeleg(r *Rng, s *snap, step int) op {
 		u = 3 + r.Intn(2)
 	}
 	v := r.Intn(nVals)
-	switch r.Pick(26, 26, 14, 8, 16, 5, 5) {
+	switch r.Pick(24, 22, 12, 8, 14, 9, 4, 3, 2, 2) {
 	case 0:
 		return op{Kind: "block", Dt: w.genBlockDt(r)}
 	case 1:
 		return op{Kind: "delegate", U: u, P: v, A: genAmount(r).String()}
 	case 2:
-		if u >= 3 {
-			u = r.Intn(3) // operators keep their self-delegation (no jailing in this harness)
+		if u >= 3 && r.Chance(3, 4) {
+			u = r.Intn(3) // an operator undelegating below the minimum self-delegation jails his validator
 		}
 		for try := 0; try < 4 && w.delegated(u, v).Sign() == 0; try++ {
 			u, v = r.Intn(3), r.Intn(nVals)
@@ -229,6 +269,12 @@ func (w *world) genOpDeleg(r *Rng, s *snap, step int) op {
 		return op{Kind: "claim", U: u, D: d, M: m}
 	case 5:
 		return op{Kind: "endblock"}
+	case 6:
+		return op{Kind: "val-slash", P: v, A: []string{"0.01", "0.05", "0.000001", "0.3", "0.5"}[r.Intn(5)]}
+	case 7:
+		return op{Kind: "val-jail", P: v}
+	case 8:
+		return op{Kind: "val-unjail", P: v}
 	default:
 		switch r.Intn(3) {
 		case 0:
